@@ -3,6 +3,8 @@ CONSTANTS
   Cpus <- MCCpus
   PkgOf <- MCPkgOf
   Defs <- MCDefs
+  CoreOf <- MCCoreOf
+  ShareDeviation = "none"
   Ctrs = {c1, c2}
   Reqs = {0, 1500, 2500}
   ClassDeviation = "undo_keeps_type_class"
